@@ -240,3 +240,286 @@ def _cl(fn, labels, key):
 _RQ = ['add-mode', 'remove-mode', 'frame[elems]', 'frame[lists-and-roles]']
 c.loop(0, inv=_cl(_rq_outer, _RQ, 'rq0'))
 c.loop(1, inv=_cl(_rq_inner, _RQ, 'rq1'))
+
+
+# ---------------------------------------------------------------- Sequence._flatten
+FS = 'sequence.py'
+
+
+def item_len(st, x):
+    """length of what one argument contributes to the flattened list"""
+    return If(x == NONE, 0, If(isa['AbstractJob'](x), 1, If(isa['Sequence'](x), st.llen(st.f('seqjobs', x)), 0)))
+
+
+def item_has(st, x, y):
+    """y is one of the jobs argument x contributes"""
+    i = fresh('i', L.I)
+    sj = st.f('seqjobs', x)
+    return Or(And(isa['AbstractJob'](x), y == x),
+              And(isa['Sequence'](x), x != NONE, Not(isa['AbstractJob'](x)),
+                  Exists([i], And(0 <= i, i < st.llen(sj), st.lat(sj, i) == y))))
+
+
+def flat_spec(c, st, args, res, n_items, off):
+    """res = flat(args[0:n_items]) : positional characterisation with the offset ghost `off`
+    (off(k) = total length contributed by the first k arguments), DESIGN 3.3 / 6-C19"""
+    k, p = fresh('k', L.I), fresh('p', L.I)
+    a = lambda k_: c.pre.lat(args, k_)
+    sj = lambda k_: c.pre.f('seqjobs', a(k_))
+    return And(
+        st.llen(res) == off(n_items),
+        ForAll([k], Implies(And(0 <= k, k < n_items, isa['AbstractJob'](a(k))), st.lat(res, off(k)) == a(k)),
+               patterns=[off(k)]),
+        ForAll([k, p], Implies(And(0 <= k, k < n_items, isa['Sequence'](a(k)), Not(isa['AbstractJob'](a(k))),
+                                   a(k) != NONE, 0 <= p, p < c.pre.llen(sj(k))),
+                               st.lat(res, off(k) + p) == c.pre.lat(sj(k), p)),
+               patterns=[z3.MultiPattern(off(k), c.pre.lat(sj(k), p))]),
+        # the same fact, indexed by the position in the result (usable when the position is what is known)
+        ForAll([k, p], Implies(And(0 <= k, k < n_items, isa['Sequence'](a(k)), Not(isa['AbstractJob'](a(k))),
+                                   a(k) != NONE, off(k) <= p, p < off(k + 1)),
+                               st.lat(res, p) == c.pre.lat(sj(k), p - off(k))),
+               patterns=[z3.MultiPattern(off(k), st.lat(res, p))]))
+
+
+def flat_members(c, st, args, res, n_items):
+    """set view: y is in the result iff some argument contributes it; the result holds live jobs only"""
+    y = q()
+    k, p = fresh('k', L.I), fresh('p', L.I)
+    inres = lambda y_: Exists([p], And(0 <= p, p < st.llen(res), st.lat(res, p) == y_))
+    contributed = lambda y_: Exists([k], And(0 <= k, k < n_items, item_has(c.pre, c.pre.lat(args, k), y_)))
+    return And(ForAll([y], Implies(contributed(y), inres(y))),
+               ForAll([p], Implies(And(0 <= p, p < st.llen(res)),
+                                   And(contributed(st.lat(res, p)), isa['AbstractJob'](st.lat(res, p)),
+                                       st.alive(st.lat(res, p)))), patterns=[st.lat(res, p)]))
+
+
+def flatten_args_ok(st, args):
+    """input validity: sequences among the arguments hold live jobs"""
+    k, p = fresh('k', L.I), fresh('p', L.I)
+    x = st.lat(args, k)
+    sj = st.f('seqjobs', x)
+    return And(st.llen(args) >= 0,
+               ForAll([k], Implies(And(0 <= k, k < st.llen(args)), Or(x == NONE, st.alive(x))), patterns=[st.lat(args, k)]),
+               _seqs_ok(st, args))
+
+
+def _seqs_ok(st, args):
+    k, p = fresh('k', L.I), fresh('p', L.I)
+    x = st.lat(args, k)
+    sj = st.f('seqjobs', x)
+    return ForAll([k], Implies(And(0 <= k, k < st.llen(args), isa['Sequence'](x)),
+                               And(st.alive(sj), sj != args, st.llen(sj) >= 0,
+                                   ForAll([p], Implies(And(0 <= p, p < st.llen(sj)),
+                                                       And(isa['AbstractJob'](st.lat(sj, p)), st.alive(st.lat(sj, p)))),
+                                          patterns=[st.lat(sj, p)]))),
+                  patterns=[st.lat(args, k)])
+
+
+c = contract('Sequence._flatten', FS).param('sequences_or_jobs', 'list').returns('list')
+c.for_props('C19')
+c.fieldmap = {'jobs': 'seqjobs'}
+c.requires('arguments-are-jobs-sequences-or-None', lambda c: flatten_args_ok(c.pre, c.a.sequences_or_jobs))
+c.modifies('$alive', '$llen', '$lat')
+
+
+OFF_ITEMOF = {}
+
+
+def define_off(c, args):
+    """the offset ghost: off(0) = 0, off(k+1) = off(k) + (length contributed by argument k).
+    A definition by primitive recursion (always has a solution): sound definitional extension."""
+    off = z3.Function(L.fresh_name('off'), L.I, L.I)
+    k = fresh('k', L.I)
+    m = fresh('k', L.I)
+    qq = fresh('p', L.I)
+    itemof = z3.Function(L.fresh_name('itemof'), L.I, L.I)
+    c.fact(off(0) == 0,
+           ForAll([k], Implies(0 <= k, And(off(k + 1) == off(k) + item_len(c.pre, c.pre.lat(args, k)), off(k) >= 0,
+                                          off(k + 1) >= off(k))), patterns=[off(k)]),
+           # L-OFF-MONO / L-OFF-INV: consequences (by induction on k) of the recursive definition, item lengths
+           # being >= 0; proved in lemmas/Offsets.lean, stated here as lemma facts
+           ForAll([k, m], Implies(And(0 <= k, k <= m), off(k) <= off(m)), patterns=[z3.MultiPattern(off(k), off(m))]),
+           ForAll([qq, m], Implies(And(0 <= qq, 0 <= m, qq < off(m)),
+                                   And(0 <= itemof(qq), itemof(qq) < m, off(itemof(qq)) <= qq,
+                                       qq < off(itemof(qq) + 1))), patterns=[z3.MultiPattern(itemof(qq), off(m))]))
+    OFF_ITEMOF[off.name()] = itemof
+    return off
+
+
+def _fl_off(c):
+    if c.skolems is not None and 'off' in c.skolems:
+        off, axs = c.skolems['off']
+    else:
+        sink = type(c)(c.pre, c.pre, c.args)
+        off = define_off(sink, c.a.sequences_or_jobs)
+        axs = list(sink.defs)
+        c.skolem('off', lambda: (off, axs))
+    c.fact(axs)
+    return off
+
+
+def _fl_post(c):
+    args = c.a.sequences_or_jobs
+    if c.mode == 'assume':
+        off = define_off(c, args)
+        c.cur.g['$flat-off'] = off
+        c.cur.g['$flat-res'] = c.result
+        c.cur.g['$flat-args'] = args
+    else:
+        off = _fl_off(c)
+    return flat_spec(c, c.cur, args, c.result, c.pre.llen(args), off)
+
+
+c.ensures('result-is-the-flattened-list', _fl_post, props=['C19'])
+c.ensures('result-fresh', lambda c: And(Not(c.pre.alive(c.result)), c.cur.alive(c.result), isa['list'](c.result)))
+c.ensures('frame[lists]', lambda c: (lambda s: ForAll([s], Implies(c.pre.alive(s), And(
+    c.cur.llen(s) == c.pre.llen(s), Select(c.cur.H('$lat'), s) == Select(c.pre.H('$lat'), s))),
+    patterns=[c.cur.llen(s)]))(q()))
+
+
+def _fl_loop(c):
+    st = c.cur
+    args = c.a.sequences_or_jobs
+    res = st.env['result'].t
+    s = q()
+    return [
+        ('flat-of-the-prefix', flat_spec(c, st, args, res, c.index, _fl_off(c))),
+        ('result-fresh', And(Not(c.pre.alive(res)), st.alive(res), isa['list'](res))),
+        ('frame[lists]', ForAll([s], Implies(c.pre.alive(s), And(
+            st.llen(s) == c.pre.llen(s), Select(st.H('$lat'), s) == Select(c.pre.H('$lat'), s))),
+            patterns=[st.llen(s)])),
+    ]
+
+
+def _fl_hints(h, e):
+    """one step of the loop: what was in the list stays where it was; what the current argument contributes
+    lands from offset off(idx)"""
+    hs, st = h.cur, e.cur
+    args = e.a.sequences_or_jobs
+    off = _fl_off(e)
+    idx = h.index
+    res = st.env['result'].t
+    x = h.elem
+    i, p, k = fresh('i', L.I), fresh('p', L.I), fresh('k', L.I)
+    sj = e.pre.f('seqjobs', x)
+    return [
+        L.Lemma('offsets-before-the-current-one', ForAll([k], Implies(And(0 <= k, k <= idx), And(
+            off(k) <= off(idx), Implies(k < idx, off(k + 1) <= off(idx)))), patterns=[off(k)])),
+        L.Lemma('prefix-of-the-list-unchanged', ForAll([i], Implies(And(0 <= i, i < off(idx)),
+                                                                    st.lat(res, i) == hs.lat(res, i)),
+                                                       patterns=[st.lat(res, i)])),
+        L.Lemma('a-sequence-lands-at-the-current-offset', Implies(
+            And(isa['Sequence'](x), Not(isa['AbstractJob'](x)), x != NONE),
+            ForAll([p], Implies(And(0 <= p, p < e.pre.llen(sj)), st.lat(res, off(idx) + p) == e.pre.lat(sj, p)),
+                   patterns=[e.pre.lat(sj, p)]))),
+        L.Lemma('a-job-lands-at-the-current-offset', Implies(isa['AbstractJob'](x), st.lat(res, off(idx)) == x)),
+    ]
+
+
+c.loop(0, inv=_cl(_fl_loop, ['flat-of-the-prefix', 'result-fresh', 'frame[lists]'], 'fl'), hints=_fl_hints)
+
+
+# ---------------------------------------------------------------- PureScheduler.update / add / remove
+FP = 'purescheduler.py'
+
+
+def contributed(st, args, y):
+    """some argument of the list `args` contributes job y to the flattened list"""
+    k = fresh('k', L.I)
+    return Exists([k], And(0 <= k, k < st.llen(args), item_has(st, st.lat(args, k), y)))
+
+
+c = contract('PureScheduler.update', FP).param('self').param('jobs', 'list').returns('ref')
+c.for_props('C19')
+c.requires('self-is-scheduler', lambda c: is_sched(c.a.self))
+c.requires('arguments-are-jobs-sequences-or-None', lambda c: flatten_args_ok(c.pre, c.a.jobs))
+c.modifies('$alive', '$llen', '$lat', '$elems', '$setrole')
+c.ensures('registers-exactly-the-jobs-involved', lambda c: (lambda y: ForAll([y],
+          member(c.cur, c.a.self, y) == Or(member(c.pre, c.a.self, y), contributed(c.pre, c.a.jobs, y)),
+          patterns=[member(c.cur, c.a.self, y)]))(q()), props=['C19'])
+c.ensures('returns-self', lambda c: c.result == c.a.self, props=['C19'])
+c.ensures('frame[elems]', lambda c: (lambda s: ForAll([s], Implies(
+    And(c.pre.alive(s), s != c.pre.f('jobs', c.a.self)), c.cur.elems(s) == c.pre.elems(s)),
+    patterns=[c.cur.elems(s)]))(q()))
+c.ensures('frame[lists]', lambda c: (lambda s: ForAll([s], Implies(c.pre.alive(s), And(
+    c.cur.llen(s) == c.pre.llen(s), Select(c.cur.H('$lat'), s) == Select(c.pre.H('$lat'), s))),
+    patterns=[c.cur.llen(s)]))(q()))
+
+
+def flat_view_lemmas(c, st):
+    """the two directions between positions of the flattened list and the arguments (via L-OFF-INV)"""
+    off, res, args = st.g.get('$flat-off'), st.g.get('$flat-res'), st.g.get('$flat-args')
+    if off is None:
+        return []
+    itemof = OFF_ITEMOF[off.name()]
+    qq, k, p = fresh('p', L.I), fresh('k', L.I), fresh('p', L.I)
+    n = c.pre.llen(args)
+    a = lambda k_: c.pre.lat(args, k_)
+    sj = lambda k_: c.pre.f('seqjobs', a(k_))
+    io = lambda q_: itemof(q_)
+    inrange = lambda q_: And(0 <= q_, q_ < st.llen(res))
+    pat = lambda q_: [st.lat(res, q_)]
+    return [
+        L.Lemma('position-lies-in-the-span-of-its-argument', ForAll([qq], Implies(inrange(qq), And(
+            0 <= io(qq), io(qq) < n, off(io(qq)) <= qq, qq < off(io(qq) + 1),
+            off(io(qq) + 1) == off(io(qq)) + item_len(c.pre, a(io(qq))))), patterns=pat(qq))),
+        L.Lemma('that-argument-is-a-job-or-a-non-empty-sequence', ForAll([qq], Implies(inrange(qq), And(
+            a(io(qq)) != NONE, Or(isa['AbstractJob'](a(io(qq))), isa['Sequence'](a(io(qq)))))), patterns=pat(qq))),
+        L.Lemma('position-of-a-job-argument', ForAll([qq], Implies(And(inrange(qq), isa['AbstractJob'](a(io(qq)))),
+                                                                  st.lat(res, qq) == a(io(qq))), patterns=pat(qq))),
+        L.Lemma('position-inside-a-sequence-argument', ForAll([qq], Implies(
+            And(inrange(qq), isa['Sequence'](a(io(qq))), Not(isa['AbstractJob'](a(io(qq))))),
+            And(st.lat(res, qq) == c.pre.lat(sj(io(qq)), qq - off(io(qq))), 0 <= qq - off(io(qq)),
+                qq - off(io(qq)) < c.pre.llen(sj(io(qq))))), patterns=pat(qq))),
+        L.Lemma('every-position-holds-a-job-contributed-by-its-argument', ForAll([qq], Implies(
+            And(0 <= qq, qq < st.llen(res)),
+            And(0 <= itemof(qq), itemof(qq) < n, item_has(c.pre, a(itemof(qq)), st.lat(res, qq)),
+                isa['AbstractJob'](st.lat(res, qq)), st.alive(st.lat(res, qq)))), patterns=[st.lat(res, qq)])),
+        L.Lemma('a-job-argument-sits-at-its-offset', ForAll([k], Implies(
+            And(0 <= k, k < n, isa['AbstractJob'](a(k))), And(st.lat(res, off(k)) == a(k), 0 <= off(k),
+                                                              off(k) < st.llen(res))), patterns=[a(k)])),
+        L.Lemma('the-jobs-of-a-sequence-argument-sit-from-its-offset', ForAll([k, p], Implies(
+            And(0 <= k, k < n, isa['Sequence'](a(k)), Not(isa['AbstractJob'](a(k))), a(k) != NONE,
+                0 <= p, p < c.pre.llen(sj(k))),
+            And(st.lat(res, off(k) + p) == c.pre.lat(sj(k), p), 0 <= off(k) + p, off(k) + p < st.llen(res))),
+            patterns=[c.pre.lat(sj(k), p)])),
+    ]
+
+
+def _upd_hints(c):
+    return flat_view_lemmas(c, c.cur)
+
+
+c.post_hints = _upd_hints
+
+c = contract('PureScheduler.add', FP).param('self').param('job').returns('ref')
+c.for_props('C19')
+c.requires('self-is-scheduler', lambda c: is_sched(c.a.self))
+c.requires('job-is-a-job-or-a-sequence', lambda c: Or(
+    c.a.job == NONE, And(isa['AbstractJob'](c.a.job), c.pre.alive(c.a.job)),
+    And(isa['Sequence'](c.a.job), flatten_args_ok_one(c.pre, c.a.job))))
+c.modifies('$alive', '$llen', '$lat', '$elems', '$setrole')
+c.ensures('registers-exactly-the-jobs-involved', lambda c: (lambda y: ForAll([y],
+          member(c.cur, c.a.self, y) == Or(member(c.pre, c.a.self, y), item_has(c.pre, c.a.job, y)),
+          patterns=[member(c.cur, c.a.self, y)]))(q()), props=['C19'])
+c.ensures('returns-the-job', lambda c: c.result == c.a.job, props=['C19'])
+
+c = contract('PureScheduler.remove', FP).param('self').param('job').returns('ref')
+c.for_props('C19')
+c.requires('self-is-scheduler', lambda c: is_sched(c.a.self))
+c.modifies('$elems')
+c.ensures('removes-exactly-the-job', lambda c: And(member(c.pre, c.a.self, c.a.job), (lambda y: ForAll([y],
+          member(c.cur, c.a.self, y) == And(member(c.pre, c.a.self, y), y != c.a.job),
+          patterns=[member(c.cur, c.a.self, y)]))(q())), props=['C19'])
+c.ensures('returns-self', lambda c: c.result == c.a.self, props=['C19'])
+c.raises('KeyError', 'only-if-not-a-member', lambda c: Not(member(c.pre, c.a.self, c.a.job)), props=['C19'])
+c.raises('KeyError', 'nothing-changed', lambda c: c.cur.H('$elems') == c.pre.H('$elems'))
+
+
+def flatten_args_ok_one(st, x):
+    p = fresh('p', L.I)
+    sj = st.f('seqjobs', x)
+    return And(st.alive(sj), st.llen(sj) >= 0,
+               ForAll([p], Implies(And(0 <= p, p < st.llen(sj)),
+                                   And(isa['AbstractJob'](st.lat(sj, p)), st.alive(st.lat(sj, p)))),
+                      patterns=[st.lat(sj, p)]))
